@@ -248,7 +248,7 @@ def build(entries, outdir, kind):
             s2 = s.replace(e['old'], e['new']) if e['count'] == 0 else s.replace(e['old'], e['new'], e['count'])
             open(p, 'w').write(s2)
             diff = subprocess.run(['git', '-C', wt, 'diff'], stdout=subprocess.PIPE).stdout.decode()
-            rc = subprocess.run('go build ./... && GOARCH=arm64 go build ./...', shell=True, cwd=wt, env=env, stdout=subprocess.PIPE, stderr=subprocess.STDOUT)
+            rc = subprocess.run('go build -trimpath ./... && GOARCH=arm64 go build -trimpath ./...', shell=True, cwd=wt, env=env, stdout=subprocess.PIPE, stderr=subprocess.STDOUT)
             if rc.returncode != 0:
                 return dict(e, status='not generated: does not build: ' + rc.stdout.decode()[-200:])
             open(os.path.join(outdir, e['name'] + '.diff'), 'w').write(diff)
